@@ -176,9 +176,9 @@ def run_kw(spec, ctx):
         klen = (16, 24, 32)[j % 3]
         key = rb(rng, klen)
         if mode == "kw":
-            L = KW_LENS[j % len(KW_LENS)] if j % 4 else 8 * rng.randint(2, 75 if not thorough else 300)
+            L = KW_LENS[j % len(KW_LENS)] if j % 4 else 8 * rng.randint(2, 75 if not thorough else 150)
         else:
-            L = KWP_LENS[j % len(KWP_LENS)] if j % 4 else rng.randint(1, 600 if not thorough else 2400)
+            L = KWP_LENS[j % len(KWP_LENS)] if j % 4 else rng.randint(1, 600 if not thorough else 1200)
         P = rb(rng, L)
         c = ref_cipher("AES", key)
         libmode = AES.MODE_KW if mode == "kw" else AES.MODE_KWP
